@@ -2,9 +2,25 @@ import Dnp3.Proofs.OutstationSkel
 /-!
 # C13 — internal indication bits tell the truth (session-level plumbing)
 
-`Db.*` is opaque: no `Db` function is unfolded; every theorem holds for any database component.
+`Db.*` is opaque: no `Db` function is unfolded; every theorem holds for any database component
+(the `EVAL` block at the end evaluates one concrete trace).
 The relation of the class / overflow bits to the event buffer is the database component's job;
 here: which state each IIN bit is copied from, and how `restart` / `lastBroadcast` evolve.
+
+Broadcast bit (section 3).  D16 — "accepting an unsolicited confirm cleared `lastBroadcast` for every confirm
+mode although no response had reported IIN1.0" — is REPAIRED: `OState.unsolReported` records whether the
+unsolicited response awaiting its confirm carried IIN1.0 with no broadcast received since, and the
+unsolicited confirm clears the record only then.  What is proved now:
+* `broadcast_bit_rule` (all four former clauses, plus: an accepted unsolicited confirm changes
+  `lastBroadcast` only if `unsolReported` was set) and its fifth clause alone, `unsol_confirm_keeps_unreported`;
+* `confirm_clears_broadcast` (d): the unsolicited confirm clears the record iff `unsolReported`, else keeps it;
+* `unsolReported_sound` / `_start` / `_reachable`: the invariant `ReportedOk` ("flag set while waiting ⇒ the
+  awaited unsolicited response carried IIN1.0") is preserved by every step from every state;
+* `broadcast_in_wait_resets_reported`: a broadcast processed during the unsolicited wait records its mode and
+  resets the flag;
+* `broadcast_never_dropped_by_unsol_confirm` (trace level): that record survives every quiet continuation of
+  the run, the accepted unsolicited confirm included, so the next response reports it
+  (`unsol_confirm_keeps_broadcast_example`: the concrete trace).
 -/
 namespace Dnp3.Proofs.C13
 open Dnp3 Dnp3.Proofs.Frame Dnp3.Proofs.Iin Dnp3.Proofs.Skel
@@ -357,14 +373,29 @@ theorem reqIdle_rr {pf : Option Frag} (a : Acc) (f : Frag) (ctrl : AppCtrl) (fun
       refine RR.keep ?_ [] (by simp) (by simp)
       simp only [keepRd, Prod.mk.injEq] at hk
       exact hk.2.2.2.2.1
+    | echo s1 last hk _ _ _ _ =>
+      refine RR.keep ?_ [] (by simp) (by simp)
+      simp only [keepRd, Prod.mk.injEq] at hk
+      exact hk.2.2.2.2.1
   refine RR.trans r1 ?_
   cases lr with
   | none => cases s2; exact RR.refl _ _
-  | some lr =>
-    rcases s2 with ⟨_, lr', e⟩ | ⟨r, a2, r2, lr', _, hw, e⟩
-    · subst e; exact RR.keep rfl [] (by simp) (by simp)
-    · subst e
-      exact RR.trans (writeSolicited_rr _ _ _ _ _ hw) (RR.keep rfl [] (by simp) (by simp))
+  | some p =>
+    obtain ⟨lr, echo⟩ := p
+    cases echo with
+    | false =>
+      rcases s2 with ⟨_, lr', e⟩ | ⟨r, a2, r2, lr', _, hw, e⟩
+      · subst e; exact RR.keep rfl [] (by simp) (by simp)
+      · subst e
+        exact RR.trans (writeSolicited_rr _ _ _ _ _ hw) (RR.keep rfl [] (by simp) (by simp))
+    | true =>
+      rcases s2 with ⟨_, e⟩ | ⟨r, _, e⟩
+      · subst e; exact RR.keep rfl [] (by simp) (by simp)
+      · subst e
+        refine RR.trans (b := repeatSolicited a1 f.src r) (RR.ofFrame (repeatSolicited_frame _ _ _) ?_ (by simp))
+          (RR.keep rfl [] (by simp) (by simp))
+        intro s s' h
+        simp only [kR, Prod.mk.injEq] at h; exact h.2.2.1
 
 /-- every event respects the restart discipline -/
 theorem Ev.rr {pf : Option Frag} {a a' : Acc} (h : Ev pf a a') : RR (WriteClears pf) a a' := by
@@ -402,7 +433,8 @@ theorem Ev.rr {pf : Option Frag} {a a' : Acc} (h : Ev pf a a') : RR (WriteClears
     · exact RR.ofFrame (clearWrittenEvents_frame _) kRr (by simp)
   | fmtRead fir seq iin2 => exact RR.keep rfl [] (by simp) (by simp)
   | unsolConf resp isNull retries dl f ctrl objs raw _ _ _ _ =>
-    refine RR.trans (b := emitCb ({ a.1 with lastBroadcast := none }, a.2) (.unsolConfirmed resp.ctrl.seq)) ?_ ?_
+    refine RR.trans (b := emitCb ({ a.1 with lastBroadcast := if a.1.unsolReported then none else a.1.lastBroadcast }, a.2)
+      (.unsolConfirmed resp.ctrl.seq)) ?_ ?_
     · exact RR.keep rfl [.cb (.unsolConfirmed resp.ctrl.seq)] rfl (by simp [clearOut])
     · exact RR.ofFrame (afterUnsolSeries_frame _ _ _) kR'r (by simp)
   | uwSolConfirm resp isNull retries dl f ctrl objs raw _ _ _ =>
@@ -414,6 +446,7 @@ theorem Ev.rr {pf : Option Frag} {a a' : Acc} (h : Ev pf a a') : RR (WriteClears
     rintro ⟨h2, hs, ho, hh, hm, hc⟩
     subst h2 ho
     exact ⟨f, ctrl, hs, raw, hh, hq.1, hq.2, hm, hc⟩
+  | uwBcastSeen resp isNull retries dl f m ctrl func objs raw _ _ _ _ _ => exact RR.keep rfl [] (by simp) (by simp)
   | nonRead f ctrl func hs raw a' r hq _ _ _ hn =>
     refine (handleNonRead_rr _ _ _ _ _ _ _ _ hn).mono ?_
     rintro ⟨h2, hh, hm, hc⟩
@@ -773,14 +806,28 @@ theorem reqIdle_br {pf : Option Frag} (a : Acc) (f : Frag) (ctrl : AppCtrl) (fun
       refine BR.keep ?_ [] (by simp)
       simp only [keepRd, Prod.mk.injEq] at hk
       exact hk.2.2.2.2.2.2.2.2.2.2.2.2.2.1
+    | echo s1 last hk _ _ _ _ =>
+      refine BR.keep ?_ [] (by simp)
+      simp only [keepRd, Prod.mk.injEq] at hk
+      exact hk.2.2.2.2.2.2.2.2.2.2.2.2.2.1
   refine BR.trans r1 ?_
   cases lr with
   | none => cases s2; exact BR.refl _ _
-  | some lr =>
-    rcases s2 with ⟨_, lr', e⟩ | ⟨r, a2, r2, lr', _, hw, e⟩
-    · subst e; exact BR.keep rfl [] (by simp)
-    · subst e
-      exact BR.trans (writeSolicited_br _ _ _ _ _ hw) (BR.keep rfl [] (by simp))
+  | some p =>
+    obtain ⟨lr, echo⟩ := p
+    cases echo with
+    | false =>
+      rcases s2 with ⟨_, lr', e⟩ | ⟨r, a2, r2, lr', _, hw, e⟩
+      · subst e; exact BR.keep rfl [] (by simp)
+      · subst e
+        exact BR.trans (writeSolicited_br _ _ _ _ _ hw) (BR.keep rfl [] (by simp))
+    | true =>
+      -- the stored response goes out verbatim: `lastBroadcast` is neither reported nor touched
+      rcases s2 with ⟨_, e⟩ | ⟨r, _, e⟩
+      · subst e; exact BR.keep rfl [] (by simp)
+      · subst e
+        exact BR.keep rfl [.tx f.src ((writeAt a1.1.solBuf 0 (respHeader r)).take (max 4 r.size))]
+          (by simp [repeatSolicited, emit])
 
 /-- every event respects the broadcast-bit discipline -/
 theorem Ev.br {pf : Option Frag} {a a' : Acc} (h : Ev pf a a') : BR pf a a' := by
@@ -810,11 +857,24 @@ theorem Ev.br {pf : Option Frag} {a a' : Acc} (h : Ev pf a a') : BR pf a a' := b
   | fmtRead fir seq iin2 => exact BR.keepB rfl hb
   | unsolConf resp isNull retries dl f ctrl objs raw _ _ _ _ =>
     obtain ⟨_, _, l, e⟩ := Base.ofFrame ((afterUnsolSeries_frame
-      (emitCb ({ a.1 with lastBroadcast := none }, a.2) (.unsolConfirmed resp.ctrl.seq)) isNull true).weaken kS_of_kR')
-    refine BR.cleared ?_ ([.cb (.unsolConfirmed resp.ctrl.seq)] ++ l) ?_
-      ⟨.cb (.unsolConfirmed resp.ctrl.seq), by simp, Or.inr (Or.inl rfl)⟩
-    · rw [afterUnsolSeries_lb]; rfl
-    · rw [e]; simp [emitCb, emit]
+      (emitCb ({ a.1 with lastBroadcast := if a.1.unsolReported then none else a.1.lastBroadcast }, a.2)
+        (.unsolConfirmed resp.ctrl.seq)) isNull true).weaken kS_of_kR')
+    have hl := afterUnsolSeries_lb
+      (emitCb ({ a.1 with lastBroadcast := if a.1.unsolReported then none else a.1.lastBroadcast }, a.2)
+        (.unsolConfirmed resp.ctrl.seq)) isNull true
+    have e' : (afterUnsolSeries
+        (emitCb ({ a.1 with lastBroadcast := if a.1.unsolReported then none else a.1.lastBroadcast }, a.2)
+          (.unsolConfirmed resp.ctrl.seq)) isNull true).1.2 = a.2 ++ ([.cb (.unsolConfirmed resp.ctrl.seq)] ++ l) := by
+      rw [e]; simp [emitCb, emit]
+    by_cases hur : a.1.unsolReported = true
+    · -- the confirmed response had reported the record: cleared, with the `unsolConfirmed` callback as witness
+      refine BR.cleared ?_ _ e' ⟨.cb (.unsolConfirmed resp.ctrl.seq), by simp, Or.inr (Or.inl rfl)⟩
+      rw [hl]; show (if a.1.unsolReported = true then none else a.1.lastBroadcast) = none
+      rw [if_pos hur]
+    · -- it had not: the record is kept
+      refine BR.keep ?_ _ e'
+      rw [hl]; show (if a.1.unsolReported = true then none else a.1.lastBroadcast) = _
+      rw [if_neg hur]
   | uwSolConfirm resp isNull retries dl f ctrl objs raw _ hq hu =>
     have hsc : IsSolConfirm pf := ⟨f, ctrl, objs, raw, hq.1, hq.2, hu⟩
     by_cases h1 : a.1.lastBroadcast = some 1
@@ -823,6 +883,7 @@ theorem Ev.br {pf : Option Frag} {a a' : Acc} (h : Ev pf a a') : BR pf a a' := b
         fun hn => absurd hsc hn⟩
     · rw [if_neg h1]; exact BR.refl _ _
   | bcast f m ctrl func objs raw a' hq _ hbm hp => exact processBroadcast_br _ _ _ _ _ _ _ _ hq.1 hbm hp
+  | uwBcastSeen resp isNull retries dl f m ctrl func objs raw _ _ _ _ _ => exact BR.keepB rfl hb
   | nonRead f ctrl func hs raw a' r hq _ _ _ hn => exact BR.keepB (handleNonRead_lb _ _ _ _ _ _ _ _ hn) hb
   | uwDisable resp isNull retries dl f ctrl hs raw _ _ => exact BR.keepB (afterUnsolSeries_lb _ _ _) hb
   | deferSet f ctrl hs raw _ _ => exact BR.keepB rfl hb
@@ -832,6 +893,354 @@ theorem Ev.br {pf : Option Frag} {a a' : Acc} (h : Ev pf a a') : BR pf a a' := b
 theorem Reach.br {pf : Option Frag} {a a' : Acc} (h : Reach pf a a') : BR pf a a' :=
   Star.lift (BR.refl _) (fun _ _ _ => BR.trans) (fun _ _ => Ev.br) h
 
+/-! ### the unsolicited confirm and `unsolReported` (D16 repaired)
+
+`OState.unsolReported` says whether the unsolicited response awaiting its confirm carried IIN1.0 and no
+broadcast was received since it was written.  The relation `UR` below follows it through every event. -/
+
+/-- a transmitted fragment whose IIN1.0 (broadcast received) is set -/
+def ReportsBroadcast : OOut → Prop
+  | .tx _ bytes => (bytes.getD 2 0).testBit 0 = true
+  | _ => False
+
+/-- an output that is neither a processed broadcast, nor an accepted solicited confirm, nor a transmitted
+    fragment with IIN1.0 set -/
+def Quiet (o : OOut) : Prop :=
+  OOut.kind o ≠ .bcast ∧ (∀ e, o ≠ .cb (.solConfirmed e)) ∧ ¬ ReportsBroadcast o
+
+/-- an output that is neither a processed broadcast, nor an accepted solicited confirm, nor the start of a
+    new unsolicited series (`Cb.unsolWait`) -/
+def Quiet1 (o : OOut) : Prop :=
+  OOut.kind o ≠ .bcast ∧ (∀ e, o ≠ .cb (.solConfirmed e)) ∧ OOut.kind o ≠ .unsolWait
+
+/-- if the flag is set while waiting, the unsolicited response awaiting its confirm carried IIN1.0 -/
+def ReportedOk (s : OState) : Prop :=
+  ∀ resp isNull retries dl, s.mode = .unsolWait resp isNull retries dl → s.unsolReported = true →
+    resp.iin1.testBit 0 = true
+
+def UR (pf : Option Frag) (a a' : Acc) : Prop :=
+  ∃ l, a'.2 = a.2 ++ l ∧
+    (ReportedOk a.1 → ReportedOk a'.1) ∧
+    (¬ IsSolConfirm pf → (∀ o ∈ l, Quiet o) → a.1.unsolReported = false →
+      a'.1.unsolReported = false ∧ a'.1.lastBroadcast = a.1.lastBroadcast) ∧
+    (¬ IsSolConfirm pf → (∀ o ∈ l, Quiet1 o) → a.1.unsolReported = false → a.1.lastBroadcast = some 1 →
+      a'.1.unsolReported = false ∧ a'.1.lastBroadcast = some 1)
+
+theorem ReportedOk.of_eq {s s' : OState} (hm : s'.mode = s.mode) (hu : s'.unsolReported = s.unsolReported)
+    (h : ReportedOk s) : ReportedOk s' := by
+  intro resp isNull retries dl m u
+  rw [hm] at m; rw [hu] at u
+  exact h _ _ _ _ m u
+
+theorem ReportedOk.of_notWait {s' : OState} (hm : ∀ r n t d, s'.mode ≠ .unsolWait r n t d) : ReportedOk s' :=
+  fun r n t d m _ => absurd m (hm r n t d)
+
+theorem UR.same {pf : Option Frag} {a b : Acc} (hm : b.1.mode = a.1.mode)
+    (hu : b.1.unsolReported = a.1.unsolReported) (l : List OOut) (e : b.2 = a.2 ++ l)
+    (hl : (∀ o ∈ l, Quiet o) → b.1.lastBroadcast = a.1.lastBroadcast)
+    (hl1 : (∀ o ∈ l, Quiet1 o) → a.1.lastBroadcast = some 1 → b.1.lastBroadcast = some 1) : UR pf a b :=
+  ⟨l, e, ReportedOk.of_eq hm hu, fun _ hq h0 => ⟨by rw [hu]; exact h0, hl hq⟩,
+    fun _ hq h0 h1 => ⟨by rw [hu]; exact h0, hl1 hq h1⟩⟩
+
+theorem UR.keep {pf : Option Frag} {a b : Acc} (hm : b.1.mode = a.1.mode)
+    (hu : b.1.unsolReported = a.1.unsolReported) (hl : b.1.lastBroadcast = a.1.lastBroadcast)
+    (l : List OOut) (e : b.2 = a.2 ++ l) : UR pf a b :=
+  UR.same hm hu l e (fun _ => hl) (fun _ h1 => by rw [hl]; exact h1)
+
+theorem UR.leave {pf : Option Frag} {a b : Acc} (hm : ∀ r n t d, b.1.mode ≠ .unsolWait r n t d)
+    (hu : b.1.unsolReported = a.1.unsolReported) (hl : b.1.lastBroadcast = a.1.lastBroadcast)
+    (l : List OOut) (e : b.2 = a.2 ++ l) : UR pf a b :=
+  ⟨l, e, fun _ => ReportedOk.of_notWait hm, fun _ _ h0 => ⟨by rw [hu]; exact h0, hl⟩,
+    fun _ _ h0 h1 => ⟨by rw [hu]; exact h0, by rw [hl]; exact h1⟩⟩
+
+theorem UR.refl (pf : Option Frag) (a : Acc) : UR pf a a := UR.keep rfl rfl rfl [] (by simp)
+
+theorem UR.trans {pf : Option Frag} {a b c : Acc} (h1 : UR pf a b) (h2 : UR pf b c) : UR pf a c := by
+  obtain ⟨l1, e1, r1, q1, p1⟩ := h1
+  obtain ⟨l2, e2, r2, q2, p2⟩ := h2
+  refine ⟨l1 ++ l2, by rw [e2, e1, List.append_assoc], fun h => r2 (r1 h), ?_, ?_⟩
+  · intro hc hq h0
+    obtain ⟨u1, b1⟩ := q1 hc (fun o ho => hq o (by simp [ho])) h0
+    obtain ⟨u2, b2⟩ := q2 hc (fun o ho => hq o (by simp [ho])) u1
+    exact ⟨u2, b2.trans b1⟩
+  · intro hc hq h0 hb
+    obtain ⟨u1, b1⟩ := p1 hc (fun o ho => hq o (by simp [ho])) h0 hb
+    exact p2 hc (fun o ho => hq o (by simp [ho])) u1 b1
+
+theorem UR.keepB {pf : Option Frag} {a b : Acc} (hm : b.1.mode = a.1.mode)
+    (hu : b.1.unsolReported = a.1.unsolReported) (hl : b.1.lastBroadcast = a.1.lastBroadcast) (hb : Base a b) :
+    UR pf a b := by
+  obtain ⟨_, _, l, e⟩ := hb
+  exact UR.keep hm hu hl l e
+
+theorem UR.leaveB {pf : Option Frag} {a b : Acc} (hm : ∀ r n t d, b.1.mode ≠ .unsolWait r n t d)
+    (hu : b.1.unsolReported = a.1.unsolReported) (hl : b.1.lastBroadcast = a.1.lastBroadcast) (hb : Base a b) :
+    UR pf a b := by
+  obtain ⟨_, _, l, e⟩ := hb
+  exact UR.leave hm hu hl l e
+
+/-- the third octet of a fragment whose first four octets are known -/
+theorem getD2_of_take4 (bytes : List Nat) (x0 x1 x2 x3 : Nat) (h : bytes.take 4 = [x0, x1, x2, x3]) :
+    bytes.getD 2 0 = x2 := by
+  match bytes, h with
+  | b0 :: b1 :: b2 :: b3 :: _, h =>
+    simp only [List.take_succ_cons, List.cons.injEq] at h
+    simp [h.2.2.1]
+
+theorem keepWS_mu {s s' : OState} (h : keepWS s' = keepWS s) :
+    s'.mode = s.mode ∧ s'.unsolReported = s.unsolReported := by
+  simp only [keepWS, Prod.mk.injEq] at h
+  exact ⟨by simp [h], by simp [h]⟩
+
+theorem keepNR_mu {s s' : OState} (h : keepNR s' = keepNR s) :
+    s'.mode = s.mode ∧ s'.unsolReported = s.unsolReported ∧ s'.lastBroadcast = s.lastBroadcast := by
+  simp only [keepNR, Prod.mk.injEq] at h
+  exact ⟨by simp [h], by simp [h], by simp [h]⟩
+
+theorem keepBC_mu {s s' : OState} (h : keepBC s' = keepBC s) :
+    s'.mode = s.mode ∧ s'.unsolReported = s.unsolReported := by
+  simp only [keepBC, Prod.mk.injEq] at h
+  exact ⟨by simp [h], by simp [h]⟩
+
+theorem keepRd_mu {s s' : OState} (h : keepRd s' = keepRd s) :
+    s'.mode = s.mode ∧ s'.unsolReported = s.unsolReported ∧ s'.lastBroadcast = s.lastBroadcast := by
+  simp only [keepRd, Prod.mk.injEq] at h
+  exact ⟨by simp [h], by simp [h], by simp [h]⟩
+
+theorem writeSolicited_ur {pf : Option Frag} (a : Acc) (dst : Nat) (r : Resp) (a' : Acc) (r' : Resp)
+    (h : writeSolicited a dst r = some (a', r')) : UR pf a a' := by
+  obtain ⟨s1, i1, i2, bytes, hg, e1, _, ho, hb⟩ := iin_of_fresh_response_sol a dst r a' r' h
+  obtain ⟨c1, c2, c3, _, b⟩ := getResponseIin_bits _ _ _ _ hg
+  have hk := writeSolicited_keep a dst r a' r' h
+  obtain ⟨hm, hu⟩ := keepWS_mu hk.1
+  refine UR.same hm hu [.tx dst bytes] ho ?_ (fun _ h1 => by rw [hk.2, if_pos h1])
+  intro hq
+  have hq1 : ¬ ReportsBroadcast (.tx dst bytes) := (hq _ (List.mem_singleton_self _)).2.2
+  have hn : a.1.lastBroadcast = none := by
+    cases hlb : a.1.lastBroadcast with
+    | none => rfl
+    | some m =>
+      exfalso; apply hq1
+      show (bytes.getD 2 0).testBit 0 = true
+      rw [getD2_of_take4 _ _ _ _ _ hb, Nat.testBit_or, b.2.2.2.2.1, hlb]; simp
+  rw [hk.2, hn]; rfl
+
+theorem startUnsolSeries_ur {pf : Option Frag} (a : Acc) (r : Resp) (isNull : Bool) (a' : Acc)
+    (h : startUnsolSeries a r isNull = some a') : UR pf a a' := by
+  obtain ⟨c1, c2, c3, r', _, hr, e⟩ := startUnsolSeries_eq a r isNull a' h
+  have b1 := (iin1Of_bits a.1.lastBroadcast.isSome c1 c2 c3 (a.1.script.appIin.testBit 0)
+    (a.1.script.appIin.testBit 1) (a.1.script.appIin.testBit 2) a.1.restart).1
+  refine ⟨_, (by rw [e]), ?_, ?_, ?_⟩
+  · intro _ resp n t d m u
+    rw [e] at m u
+    cases m
+    exact u
+  · intro _ hq _
+    have hq1 := (hq (.tx a.1.cfg.master ((writeAt (afterIin a.1).unsolBuf 0 (respHeader r')).take (max 4 r'.size)))
+      (by simp)).2.2
+    have h0 : r'.iin1.testBit 0 = false := by
+      cases hb : r'.iin1.testBit 0 with
+      | false => rfl
+      | true =>
+        exfalso; apply hq1
+        show (List.getD _ 2 0).testBit 0 = true
+        rw [getD2_of_take4 _ _ _ _ _ (take4_header _ (respHeader r') r'.size rfl)]
+        exact hb
+    have hn : a.1.lastBroadcast = none := by
+      cases hlb : a.1.lastBroadcast with
+      | none => rfl
+      | some m =>
+        rw [hr] at h0
+        have : (r.iin1 ||| iin1Of a.1.lastBroadcast.isSome c1 c2 c3 (a.1.script.appIin.testBit 0)
+          (a.1.script.appIin.testBit 1) (a.1.script.appIin.testBit 2) a.1.restart).testBit 0 = false := h0
+        rw [Nat.testBit_or, b1, hlb] at this
+        simp at this
+    rw [e]
+    refine ⟨h0, ?_⟩
+    show (afterIin a.1).lastBroadcast = _
+    rw [afterIin_eq, hn]; rfl
+  · -- a new series: `Cb.unsolWait` is among the outputs
+    intro _ hq
+    exact absurd rfl (hq (.cb (.unsolWait r.ctrl.seq)) (by simp)).2.2
+
+theorem afterUnsolSeries_mu (a : Acc) (isNull c : Bool) :
+    (afterUnsolSeries a isNull c).1.1.mode = a.1.mode ∧
+    (afterUnsolSeries a isNull c).1.1.unsolReported = a.1.unsolReported := by
+  unfold afterUnsolSeries
+  split
+  · exact ⟨rfl, rfl⟩
+  · split
+    · rw [clearWrittenEvents_eq]; exact ⟨rfl, rfl⟩
+    · exact ⟨rfl, rfl⟩
+
+theorem finishPass_ur (a : Acc) (n : NextIdle) : (finishPass a n).1.unsolReported = a.1.unsolReported := by
+  unfold finishPass
+  split
+  · split <;> rfl
+  · rfl
+
+theorem finishPass_notWait (a : Acc) (n : NextIdle) (r : Resp) (i : Bool) (t : Option Nat) (d : Nat) :
+    (finishPass a n).1.mode ≠ .unsolWait r i t d := by
+  intro h
+  unfold finishPass at h
+  cases h
+
+theorem chkCase_ur {pf : Option Frag} {a : Acc} {res : Acc ⊕ (Acc × NextIdle)} (h : ChkCase a res) (a' : Acc)
+    (hr : res = .inl a' ∨ ∃ n, res = .inr (a', n)) : UR pf a a' := by
+  cases h with
+  | unsupported => rcases hr with hr | ⟨n, hr⟩ <;> cases hr; exact UR.refl _ _
+  | null a1 _ _ hs =>
+    rcases hr with hr | ⟨n, hr⟩ <;> cases hr
+    exact UR.trans (UR.keep (b := ({ a.1 with unsolSeq := seq4Next a.1.unsolSeq }, a.2)) rfl rfl rfl [] (by simp))
+      (startUnsolSeries_ur _ _ _ _ hs)
+  | tooEarly => rcases hr with hr | ⟨n, hr⟩ <;> cases hr; exact UR.refl _ _
+  | disabled => rcases hr with hr | ⟨n, hr⟩ <;> cases hr; exact UR.refl _ _
+  | noEvents => rcases hr with hr | ⟨n, hr⟩ <;> cases hr; exact UR.keep rfl rfl rfl [] (by simp)
+  | data dl a1 _ _ _ _ _ hs =>
+    rcases hr with hr | ⟨n, hr⟩ <;> cases hr
+    exact UR.trans (UR.keep (b := ({ afterDbWrite a.1 with unsolSeq := seq4Next a.1.unsolSeq }, a.2)) rfl rfl rfl []
+      (by simp)) (startUnsolSeries_ur _ _ _ _ hs)
+
+theorem enterSolWait_ur {pf : Option Frag} (a : Acc) (sr : Series) (c : SolCont) : UR pf a (enterSolWait a sr c) :=
+  UR.leave (fun _ _ _ _ h => by cases h) rfl rfl [.cb (.solWait sr.ecsn)] rfl
+
+theorem defCase_ur {pf : Option Frag} {a : Acc} {next : NextIdle} {res : Acc ⊕ Acc} (h : DefCase a next res)
+    (a' : Acc) (hr : res = .inl a' ∨ res = .inr a') : UR pf a a' := by
+  cases h with
+  | none => rcases hr with hr | hr <;> cases hr; exact UR.refl _ _
+  | answered d a2 r2 _ hw _ _ =>
+    rcases hr with hr | hr <;> cases hr
+    refine UR.trans (UR.keep (b := ((deferredFormat a.1 d).1, a.2)) rfl rfl rfl [] (by simp)) ?_
+    exact UR.trans (writeSolicited_ur _ _ _ _ _ hw) (UR.keep rfl rfl rfl [] (by simp))
+  | awaiting d a2 r2 sr _ hw =>
+    rcases hr with hr | hr <;> cases hr
+    refine UR.trans (UR.keep (b := ((deferredFormat a.1 d).1, a.2)) rfl rfl rfl [] (by simp)) ?_
+    refine UR.trans (writeSolicited_ur _ _ _ _ _ hw) ?_
+    exact UR.trans (UR.keep (b := ({ a2.1 with lastReq := some ⟨d.seq, d.frag, some r2, (deferredFormat a.1 d).2.2⟩ }, a2.2))
+      rfl rfl rfl [] (by simp)) (enterSolWait_ur _ _ _)
+
+theorem processBroadcast_ur {pf : Option Frag} (a : Acc) (f : Frag) (m : Nat) (ctrl : AppCtrl) (func : Nat)
+    (objs : Except Nat (List ObjHdr)) (raw : List Nat) (a' : Acc)
+    (h : processBroadcast a f m ctrl func objs raw = some a') : UR pf a a' := by
+  obtain ⟨a1, action, hc, e⟩ := processBroadcast_cases a f m ctrl func objs raw a' h
+  obtain ⟨hk, l, el, _⟩ := (processBroadcast_frame a f m ctrl func objs raw a' h).1
+  obtain ⟨hm, hu⟩ := keepBC_mu hk
+  have hmem : OOut.cb (.broadcast func action) ∈ l := by
+    obtain ⟨l1, e1, _⟩ := bccase_rr hc
+    have : a'.2 = a.2 ++ (l1 ++ [.cb (.broadcast func action)]) := by
+      rw [e]; show a1.2 ++ _ = _; rw [e1, List.append_assoc]
+    have : l = l1 ++ [.cb (.broadcast func action)] := List.append_cancel_left (el.symm.trans this)
+    rw [this]; simp
+  exact UR.same hm hu l el (fun hq => absurd rfl (hq _ hmem).1) (fun hq => absurd rfl (hq _ hmem).1)
+
+theorem reqIdle_ur {pf : Option Frag} (a : Acc) (f : Frag) (ctrl : AppCtrl) (func : Nat)
+    (objs : Except Nat (List ObjHdr)) (raw : List Nat) (a' : Acc) (ser : Option Series)
+    (h : handleRequestFromIdle a f ctrl func objs raw = some (a', ser)) : UR pf a a' := by
+  obtain ⟨a1, lr, s1, s2⟩ := handleRequestFromIdle_cases _ _ _ _ _ _ _ _ h
+  have r1 : UR pf a a1 := by
+    cases s1 with
+    | confirm => exact UR.refl _ _
+    | bcast m a1 _ hb hp => exact processBroadcast_ur _ _ _ _ _ _ _ _ hp
+    | nonRead hs a1 r _ _ _ ho hn =>
+      obtain ⟨hm, hu, hl⟩ := keepNR_mu (handleNonRead_frame _ _ _ _ _ _ _ _ hn).1
+      exact UR.keepB hm hu hl (Base.ofFrame ((handleNonRead_frame _ _ _ _ _ _ _ _ hn).weaken kS_of_keepNR))
+    | prep s1 lr hk _ _ =>
+      obtain ⟨hm, hu, hl⟩ := keepRd_mu hk
+      exact UR.keep hm hu hl [] (by simp)
+    | echo s1 last hk _ _ _ _ =>
+      obtain ⟨hm, hu, hl⟩ := keepRd_mu hk
+      exact UR.keep hm hu hl [] (by simp)
+  refine UR.trans r1 ?_
+  cases lr with
+  | none => cases s2; exact UR.refl _ _
+  | some p =>
+    obtain ⟨lr, echo⟩ := p
+    cases echo with
+    | false =>
+      rcases s2 with ⟨_, lr', e⟩ | ⟨r, a2, r2, lr', _, hw, e⟩
+      · subst e; exact UR.keep rfl rfl rfl [] (by simp)
+      · subst e
+        exact UR.trans (writeSolicited_ur _ _ _ _ _ hw) (UR.keep rfl rfl rfl [] (by simp))
+    | true =>
+      rcases s2 with ⟨_, e⟩ | ⟨r, _, e⟩
+      · subst e; exact UR.keep rfl rfl rfl [] (by simp)
+      · subst e
+        exact UR.keep rfl rfl rfl [.tx f.src ((writeAt a1.1.solBuf 0 (respHeader r)).take (max 4 r.size))]
+          (by simp [repeatSolicited, emit])
+
+/-- every event keeps `ReportedOk`, and leaves an unreported record alone unless its outputs say otherwise -/
+theorem Ev.ur {pf : Option Frag} {a a' : Acc} (h : Ev pf a a') : UR pf a a' := by
+  have hb := Ev.base h
+  cases h with
+  | house s' hh =>
+    obtain ⟨n, l, lr, p, hp, e⟩ := hh
+    subst e
+    exact UR.keepB rfl rfl rfl hb
+  | plainCb c hc => exact UR.keepB rfl rfl rfl hb
+  | die => exact UR.leaveB (fun _ _ _ _ h => by cases h) rfl rfl hb
+  | wsol dst r a' r' hw => exact writeSolicited_ur _ _ _ _ _ hw
+  | rsol dst r => exact UR.keepB rfl rfl rfl hb
+  | dbReset => exact UR.keepB rfl rfl rfl hb
+  | clrDeferred => exact UR.keepB rfl rfl rfl hb
+  | reqIdle f ctrl func objs raw a' ser hq hh => exact reqIdle_ur _ _ _ _ _ _ _ _ hh
+  | enterSol sr c => exact enterSolWait_ur _ _ _
+  | setSolWait sr dl c => exact UR.leaveB (fun _ _ _ _ h => by cases h) rfl rfl hb
+  | chkStart a' hc => exact chkCase_ur (checkUnsolicited_cases _ _ hc) a' (Or.inl rfl)
+  | chkIdle a' n hc => exact chkCase_ur (checkUnsolicited_cases _ _ hc) a' (Or.inr ⟨n, rfl⟩)
+  | defWait n a' hd => exact defCase_ur (handleDeferredRead_cases _ _ _ hd) a' (Or.inl rfl)
+  | defDone n a' hd => exact defCase_ur (handleDeferredRead_cases _ _ _ hd) a' (Or.inr rfl)
+  | finishPass n => exact UR.leaveB (finishPass_notWait _ _) (finishPass_ur _ _) (finishPass_lb _ _) hb
+  | solConf sr dl c f ctrl objs raw _ _ _ _ =>
+    rw [clearWrittenEvents_eq]
+    exact UR.same rfl rfl _ (by rw [List.append_assoc])
+      (fun hq => absurd rfl ((hq (.cb (.solConfirmed sr.ecsn)) (by simp)).2.1 sr.ecsn))
+      (fun hq => absurd rfl ((hq (.cb (.solConfirmed sr.ecsn)) (by simp)).2.1 sr.ecsn))
+  | fmtRead fir seq iin2 => exact UR.keepB rfl rfl rfl hb
+  | unsolConf resp isNull retries dl f ctrl objs raw _ _ _ _ =>
+    obtain ⟨_, _, l, e⟩ := hb
+    obtain ⟨hm, hu⟩ := afterUnsolSeries_mu
+      (emitCb ({ a.1 with lastBroadcast := if a.1.unsolReported then none else a.1.lastBroadcast }, a.2)
+        (.unsolConfirmed resp.ctrl.seq)) isNull true
+    have hl := afterUnsolSeries_lb
+      (emitCb ({ a.1 with lastBroadcast := if a.1.unsolReported then none else a.1.lastBroadcast }, a.2)
+        (.unsolConfirmed resp.ctrl.seq)) isNull true
+    have key : a.1.unsolReported = false →
+        (afterUnsolSeries (emitCb ({ a.1 with lastBroadcast := if a.1.unsolReported then none else a.1.lastBroadcast }, a.2)
+          (.unsolConfirmed resp.ctrl.seq)) isNull true).1.1.lastBroadcast = a.1.lastBroadcast := by
+      intro h0
+      have h0' : ¬ a.1.unsolReported = true := by rw [h0]; simp
+      rw [hl]
+      show (if a.1.unsolReported = true then none else a.1.lastBroadcast) = _
+      rw [if_neg h0']
+    exact ⟨l, e, ReportedOk.of_eq hm hu, fun _ _ h0 => ⟨hu.trans h0, key h0⟩,
+      fun _ _ h0 h1 => ⟨hu.trans h0, (key h0).trans h1⟩⟩
+  | uwSolConfirm resp isNull retries dl f ctrl objs raw _ hq hu =>
+    have hsc : IsSolConfirm pf := ⟨f, ctrl, objs, raw, hq.1, hq.2, hu⟩
+    refine ⟨[], by split <;> simp, ?_, fun hn => absurd hsc hn, fun hn => absurd hsc hn⟩
+    split
+    · exact ReportedOk.of_eq rfl rfl
+    · exact id
+  | bcast f m ctrl func objs raw a' hq _ hbm hp => exact processBroadcast_ur _ _ _ _ _ _ _ _ hp
+  | uwBcastSeen resp isNull retries dl f m ctrl func objs raw _ _ _ _ _ =>
+    exact ⟨[], by simp, fun _ _ _ _ _ _ u => (by cases u), fun _ _ _ => ⟨rfl, rfl⟩, fun _ _ _ h1 => ⟨rfl, h1⟩⟩
+  | nonRead f ctrl func hs raw a' r hq _ _ _ hn =>
+    obtain ⟨hm, hu, hl⟩ := keepNR_mu (handleNonRead_frame _ _ _ _ _ _ _ _ hn).1
+    exact UR.keepB hm hu hl hb
+  | uwDisable resp isNull retries dl f ctrl hs raw _ _ =>
+    exact UR.keepB (afterUnsolSeries_mu _ _ _).1 (afterUnsolSeries_mu _ _ _).2 (afterUnsolSeries_lb _ _ _) hb
+  | deferSet f ctrl hs raw _ _ => exact UR.keepB rfl rfl rfl hb
+  | uwTimeoutEnd resp isNull retries dl _ _ =>
+    exact UR.keepB (afterUnsolSeries_mu _ _ _).1 (afterUnsolSeries_mu _ _ _).2 (afterUnsolSeries_lb _ _ _) hb
+  | uwRetry resp isNull retries retries' dl hmode _ _ =>
+    obtain ⟨_, _, l, e⟩ := hb
+    refine ⟨l, e, ?_, fun _ _ h0 => ⟨h0, rfl⟩, fun _ _ h0 h1 => ⟨h0, h1⟩⟩
+    intro hok r n t d m u
+    cases m
+    exact hok _ _ _ _ hmode u
+
+theorem Reach.ur {pf : Option Frag} {a a' : Acc} (h : Reach pf a a') : UR pf a a' :=
+  Star.lift (UR.refl _) (fun _ _ _ => UR.trans) (fun _ _ => Ev.ur) h
+
 /-- **C13.3** (`broadcast_bit_rule`), per step, for every state and input.  With `pf` the fragment the
     step examines:
     * `lastBroadcast` ends unchanged, or cleared, or equal to the confirm mode of the broadcast
@@ -840,7 +1249,16 @@ theorem Reach.br {pf : Option Frag} {a a' : Acc} (h : Reach pf a a') : BR pf a a
     * a confirm-mandatory record (`some 1`) persists unless the step shows an accepted solicited /
       unsolicited confirm or a new broadcast — or `pf` is a solicited CONFIRM (the silent
       "solicited confirm during the unsolicited wait" case);
-    * nothing at all changes it in a step that transmits no response and shows none of those. -/
+    * nothing at all changes it in a step that transmits no response and shows none of those;
+    * (D16 repaired) an accepted unsolicited confirm changes it only if `unsolReported` was set: from a
+      state with `unsolReported = false`, a step that shows no processed broadcast, no accepted solicited
+      confirm and no transmitted fragment with IIN1.0 set (`Quiet`; `pf` not a solicited CONFIRM) leaves
+      `lastBroadcast` as it is and `unsolReported` clear — an `unsolConfirmed` callback, retransmissions
+      of the unsolicited response and responses not reporting a broadcast are all allowed in that step;
+    * (D16 repaired) likewise a confirm-mandatory record (`some 1`) with `unsolReported = false` persists
+      through a step that shows no processed broadcast, no accepted solicited confirm and no new
+      unsolicited series (`Quiet1`; `pf` not a solicited CONFIRM), even if the step accepts the unsolicited
+      confirm and transmits responses that report the record. -/
 theorem broadcast_bit_rule (env : OEnv) (s : OState) (inp : OInput) :
     ∃ pf, StepFrag env s inp pf ∧
       ((Outstation.step env s inp).1.lastBroadcast = s.lastBroadcast ∨
@@ -852,39 +1270,540 @@ theorem broadcast_bit_rule (env : OEnv) (s : OState) (inp : OInput) :
       (¬ IsSolConfirm pf → (∀ o ∈ (Outstation.step env s inp).2, ¬ BcEvid o) →
         s.lastBroadcast = some 1 → (Outstation.step env s inp).1.lastBroadcast = some 1) ∧
       (¬ IsSolConfirm pf → (∀ o ∈ (Outstation.step env s inp).2, ¬ BcEvid o ∧ OOut.kind o ≠ .tx) →
-        (Outstation.step env s inp).1.lastBroadcast = s.lastBroadcast) := by
+        (Outstation.step env s inp).1.lastBroadcast = s.lastBroadcast) ∧
+      (¬ IsSolConfirm pf → (∀ o ∈ (Outstation.step env s inp).2, Quiet o) → s.unsolReported = false →
+        (Outstation.step env s inp).1.unsolReported = false ∧
+        (Outstation.step env s inp).1.lastBroadcast = s.lastBroadcast) ∧
+      (¬ IsSolConfirm pf → (∀ o ∈ (Outstation.step env s inp).2, Quiet1 o) → s.unsolReported = false →
+        s.lastBroadcast = some 1 →
+        (Outstation.step env s inp).1.unsolReported = false ∧
+        (Outstation.step env s inp).1.lastBroadcast = some 1) := by
   rcases step_reach env s inp with ⟨f, hi, e⟩ | e | ⟨pf, s0, o0, hinit, hr⟩
   · subst hi
     refine ⟨none, rfl, ?_⟩
     rw [e]
-    exact ⟨Or.inl rfl, fun _ => Or.inl rfl, fun _ _ h => h, fun _ _ => rfl⟩
+    exact ⟨Or.inl rfl, fun _ => Or.inl rfl, fun _ _ h => h, fun _ _ => rfl, fun _ _ h => ⟨h, rfl⟩,
+        fun _ _ h h1 => ⟨h, h1⟩⟩
   · refine ⟨match inp with | .tick _ | .txn _ | .add .. => s.pending | _ => none, ?_, ?_⟩
     · cases inp <;> simp [StepFrag]
     · rw [e]
-      exact ⟨Or.inl rfl, fun _ => Or.inl rfl, fun _ _ h => h, fun _ _ => rfl⟩
+      exact ⟨Or.inl rfl, fun _ => Or.inl rfl, fun _ _ h => h, fun _ _ => rfl, fun _ _ h => ⟨h, rfl⟩,
+        fun _ _ h h1 => ⟨h, h1⟩⟩
   · refine ⟨pf, hinit.frag, ?_⟩
     obtain ⟨hk, _⟩ := hinit.keep
-    have hlb : s0.lastBroadcast = s.lastBroadcast := by
-      simp only [keepInit, Prod.mk.injEq] at hk
-      exact hk.2.2.2.2.2.2.2.1
+    simp only [keepInit, Prod.mk.injEq] at hk
+    have hlb : s0.lastBroadcast = s.lastBroadcast := hk.2.2.2.2.2.2.2.1
+    have hur : s0.unsolReported = s.unsolReported := hk.2.2.2.2.2.2.2.2.2
     obtain ⟨l, el, v, st, p, n⟩ := Reach.br hr
+    obtain ⟨l', el2, _, q, q1⟩ := Reach.ur hr
     have el' : (Outstation.step env s inp).2 = o0 ++ l := el
-    have sub : ∀ {P : OOut → Prop}, (∀ o ∈ (Outstation.step env s inp).2, P o) → ∀ o ∈ l, P o := by
+    have ell : l' = l := List.append_cancel_left (el2.symm.trans el)
+    subst ell
+    have sub : ∀ {P : OOut → Prop}, (∀ o ∈ (Outstation.step env s inp).2, P o) → ∀ o ∈ l', P o := by
       intro P h o ho
       exact h o (by rw [el']; simp [ho])
     have hlb' : ((s0, o0) : Acc).1.lastBroadcast = s.lastBroadcast := hlb
-    rw [hlb'] at v st p n
-    exact ⟨v, fun h => st (sub h), fun hc h => p hc (sub h), fun hc h => n hc (sub h)⟩
+    have hur' : ((s0, o0) : Acc).1.unsolReported = s.unsolReported := hur
+    rw [hlb'] at v st p n q q1
+    rw [hur'] at q q1
+    exact ⟨v, fun h => st (sub h), fun hc h => p hc (sub h), fun hc h => n hc (sub h), fun hc h => q hc (sub h),
+      fun hc h => q1 hc (sub h)⟩
 
-/-- (d) the three accepted confirms really clear a confirm-mandatory record -/
+/-- **C13.3, D16 repaired** (`unsol_confirm_keeps_unreported`), per step, for every state and input: the fifth
+    clause of `broadcast_bit_rule` on its own.  From a state with `unsolReported = false` (no broadcast
+    indication was reported by the unsolicited response awaiting its confirm), a step that shows no
+    processed broadcast, no accepted solicited confirm and transmits no fragment with IIN1.0 set, and
+    whose fragment is not a solicited CONFIRM, keeps `lastBroadcast` — even when it accepts the
+    unsolicited confirm (`Cb.unsolConfirmed` among its outputs is allowed by `Quiet`). -/
+theorem unsol_confirm_keeps_unreported (env : OEnv) (s : OState) (inp : OInput)
+    (hsc : ∀ pf, StepFrag env s inp pf → ¬ IsSolConfirm pf)
+    (hq : ∀ o ∈ (Outstation.step env s inp).2, Quiet o) (h0 : s.unsolReported = false) :
+    (Outstation.step env s inp).1.unsolReported = false ∧
+    (Outstation.step env s inp).1.lastBroadcast = s.lastBroadcast := by
+  obtain ⟨pf, hf, _, _, _, _, h5, _⟩ := broadcast_bit_rule env s inp
+  exact h5 (hsc pf hf) hq h0
+
+/-- the sixth clause of `broadcast_bit_rule` on its own: a confirm-mandatory record that the awaited unsolicited
+    response did not report survives the step — the unsolicited confirm does not clear it, and the responses
+    transmitted meanwhile report it (IIN1.0, CON forced: `broadcast_forces_con`) without clearing it -/
+theorem unsol_confirm_keeps_mandatory (env : OEnv) (s : OState) (inp : OInput)
+    (hsc : ∀ pf, StepFrag env s inp pf → ¬ IsSolConfirm pf)
+    (hq : ∀ o ∈ (Outstation.step env s inp).2, Quiet1 o) (h0 : s.unsolReported = false)
+    (h1 : s.lastBroadcast = some 1) :
+    (Outstation.step env s inp).1.unsolReported = false ∧
+    (Outstation.step env s inp).1.lastBroadcast = some 1 := by
+  obtain ⟨pf, hf, _, _, _, _, _, h6⟩ := broadcast_bit_rule env s inp
+  exact h6 (hsc pf hf) hq h0 h1
+
+/-- (d) what the three accepted confirms do to the record: the solicited confirm (in the solicited wait)
+    clears it; the unsolicited confirm clears it iff the confirmed response had reported it
+    (`unsolReported`) and otherwise KEEPS it (D16 repaired: before, it was cleared unconditionally); a
+    solicited confirm received in the unsolicited wait clears a confirm-mandatory record -/
 theorem confirm_clears_broadcast (a : Acc) (o : List OOut) (c : Cb) (isNull : Bool) :
     (clearWrittenEvents ({ a.1 with lastBroadcast := none }, o)).1.lastBroadcast = none ∧
-    (afterUnsolSeries (emitCb ({ a.1 with lastBroadcast := none }, a.2) c) isNull true).1.1.lastBroadcast = none ∧
+    (afterUnsolSeries (emitCb ({ a.1 with lastBroadcast := if a.1.unsolReported then none else a.1.lastBroadcast }, a.2) c)
+      isNull true).1.1.lastBroadcast = (if a.1.unsolReported then none else a.1.lastBroadcast) ∧
     (if a.1.lastBroadcast = some 1 then (({ a.1 with lastBroadcast := none }, a.2) : Acc) else a).1.lastBroadcast ≠ some 1 := by
   refine ⟨by rw [clearWrittenEvents_eq], by rw [afterUnsolSeries_lb]; rfl, ?_⟩
   split
   · simp
   · assumption
+
+/-! ### `unsolReported` is sound -/
+
+/-- a step prologue keeps `ReportedOk` -/
+theorem StepInit.reportedOk {env : OEnv} {s : OState} {inp : OInput} {pf : Option Frag} {s0 : OState}
+    {o0 : List OOut} (h : StepInit env s inp pf s0 o0) (hok : ReportedOk s) : ReportedOk s0 := by
+  have hk := h.keep.1
+  simp only [keepInit, Prod.mk.injEq] at hk
+  rcases h.mode with ⟨hm, _, _⟩ | ⟨_, hm, _⟩
+  · exact ReportedOk.of_eq hm hk.2.2.2.2.2.2.2.2.2 hok
+  · exact ReportedOk.of_notWait (fun _ _ _ _ e => by rw [hm] at e; cases e)
+
+/-- **`unsolReported_sound`** (step level, every state, every input): `ReportedOk` — "if `unsolReported` is
+    set while the session waits for an unsolicited confirm, the unsolicited response awaiting that confirm
+    carried IIN1.0" — is preserved by `Outstation.step`. -/
+theorem unsolReported_sound (env : OEnv) (s : OState) (inp : OInput) (h : ReportedOk s) :
+    ReportedOk (Outstation.step env s inp).1 := by
+  rcases step_reach env s inp with ⟨f, _, e⟩ | e | ⟨pf, s0, o0, hinit, hr⟩
+  · rw [e]; exact ReportedOk.of_eq rfl rfl h
+  · rw [e]; exact h
+  · obtain ⟨_, _, r, _⟩ := Reach.ur hr
+    exact r (StepInit.reportedOk hinit h)
+
+/-- … and it holds after construction -/
+theorem unsolReported_sound_start (cfg : OCfg) (evMax : Nat) : ReportedOk (Outstation.start cfg evMax).1 := by
+  obtain ⟨_, _, r, _⟩ := Reach.ur (start_reach cfg evMax)
+  exact r (ReportedOk.of_notWait (fun _ _ _ _ e => by cases e))
+
+/-- hence in every state reachable from construction -/
+theorem unsolReported_sound_reachable (cfg : OCfg) (evMax : Nat) (env : OEnv) (s : OState)
+    (h : Outstation.Reachable cfg evMax env s) : ReportedOk s := by
+  induction h with
+  | start => exact unsolReported_sound_start cfg evMax
+  | step s i _ ih => exact unsolReported_sound env s i ih
+
+/-! ### a broadcast processed during the unsolicited wait -/
+
+/-- the fragment of this step is a broadcast request (function code ≠ 0) with confirm mode `m` -/
+def BcastReq (pf : Option Frag) (m : Nat) : Prop :=
+  ∃ f ctrl func objs raw, ReqOf pf f ctrl func objs raw ∧ func ≠ 0 ∧ f.broadcast = some m
+
+/-- a `Cb.broadcast` among the outputs: only from the step's own fragment, a broadcast request -/
+def KO (pf : Option Frag) (a a' : Acc) : Prop :=
+  ∃ l, a'.2 = a.2 ++ l ∧ ((∃ o ∈ l, OOut.kind o = .bcast) → ∃ m, BcastReq pf m)
+
+theorem KO.none {pf : Option Frag} {a b : Acc} (l : List OOut) (e : b.2 = a.2 ++ l)
+    (hn : ∀ o ∈ l, OOut.kind o ≠ .bcast) : KO pf a b :=
+  ⟨l, e, fun ⟨o, ho, hk⟩ => absurd hk (hn o ho)⟩
+
+theorem KO.refl (pf : Option Frag) (a : Acc) : KO pf a a := KO.none [] (by simp) (by simp)
+
+theorem KO.trans {pf : Option Frag} {a b c : Acc} (h1 : KO pf a b) (h2 : KO pf b c) : KO pf a c := by
+  obtain ⟨l1, e1, c1⟩ := h1
+  obtain ⟨l2, e2, c2⟩ := h2
+  refine ⟨l1 ++ l2, by rw [e2, e1, List.append_assoc], ?_⟩
+  rintro ⟨o, ho, hk⟩
+  rcases List.mem_append.1 ho with h | h
+  · exact c1 ⟨o, h, hk⟩
+  · exact c2 ⟨o, h, hk⟩
+
+theorem KO.ofFrame {κ} {K : OState → κ} {ks : List OKind} {pf : Option Frag} {a b : Acc}
+    (h : Frame K (KP ks) a b) (hc : OKind.bcast ∉ ks) : KO pf a b := by
+  obtain ⟨_, l, e, p⟩ := h
+  exact KO.none l e (fun o ho hk => hc (hk ▸ p o ho))
+
+theorem KO.ofFrameP {κ} {K : OState → κ} {P : OOut → Prop} {pf : Option Frag} {a b : Acc} (h : Frame K P a b)
+    (hc : ∀ o, P o → OOut.kind o ≠ .bcast) : KO pf a b := by
+  obtain ⟨_, l, e, p⟩ := h
+  exact KO.none l e (fun o ho => hc o (p o ho))
+
+theorem nrp_not_bcast (o : OOut) (h : NRP o) : OOut.kind o ≠ .bcast := by
+  have := NRP_kind o h
+  intro hk
+  simp [KP, hk] at this
+
+theorem processBroadcast_ko {pf : Option Frag} (a : Acc) (f : Frag) (m : Nat) (ctrl : AppCtrl) (func : Nat)
+    (objs : Except Nat (List ObjHdr)) (raw : List Nat) (a' : Acc) (hq : ReqOf pf f ctrl func objs raw)
+    (h0 : func ≠ 0) (hb : f.broadcast = some m)
+    (h : processBroadcast a f m ctrl func objs raw = some a') : KO pf a a' := by
+  obtain ⟨_, l, e, _⟩ := (processBroadcast_frame a f m ctrl func objs raw a' h).1
+  exact ⟨l, e, fun _ => ⟨m, f, ctrl, func, objs, raw, hq, h0, hb⟩⟩
+
+theorem reqIdle_ko {pf : Option Frag} (a : Acc) (f : Frag) (ctrl : AppCtrl) (func : Nat)
+    (objs : Except Nat (List ObjHdr)) (raw : List Nat) (a' : Acc) (ser : Option Series)
+    (hq : ReqOf pf f ctrl func objs raw)
+    (h : handleRequestFromIdle a f ctrl func objs raw = some (a', ser)) : KO pf a a' := by
+  obtain ⟨a1, lr, s1, s2⟩ := handleRequestFromIdle_cases _ _ _ _ _ _ _ _ h
+  have r1 : KO pf a a1 := by
+    cases s1 with
+    | confirm => exact KO.refl _ _
+    | bcast m a1 h0 hb hp => exact processBroadcast_ko _ _ _ _ _ _ _ _ hq h0 hb hp
+    | nonRead hs a1 r _ _ _ ho hn => exact KO.ofFrameP (handleNonRead_frame _ _ _ _ _ _ _ _ hn) nrp_not_bcast
+    | prep s1 lr hk _ _ => exact KO.none [] (by simp) (by simp)
+    | echo s1 last hk _ _ _ _ => exact KO.none [] (by simp) (by simp)
+  refine KO.trans r1 ?_
+  cases lr with
+  | none => cases s2; exact KO.refl _ _
+  | some p =>
+    obtain ⟨lr, echo⟩ := p
+    cases echo with
+    | false =>
+      rcases s2 with ⟨_, lr', e⟩ | ⟨r, a2, r2, lr', _, hw, e⟩
+      · subst e; exact KO.none [] (by simp) (by simp)
+      · subst e
+        exact KO.trans (KO.ofFrame (writeSolicited_frame _ _ _ _ _ hw) (by simp)) (KO.none [] (by simp) (by simp))
+    | true =>
+      rcases s2 with ⟨_, e⟩ | ⟨r, _, e⟩
+      · subst e; exact KO.none [] (by simp) (by simp)
+      · subst e
+        exact KO.trans (b := repeatSolicited a1 f.src r) (KO.ofFrame (repeatSolicited_frame _ _ _) (by simp))
+          (KO.none [] (by simp) (by simp))
+
+theorem Ev.ko {pf : Option Frag} {a a' : Acc} (h : Ev pf a a') : KO pf a a' := by
+  cases h with
+  | house s' hh => exact KO.none [] (by simp) (by simp)
+  | plainCb c hc =>
+    refine KO.none [.cb c] rfl ?_
+    intro o ho
+    simp only [List.mem_singleton] at ho
+    subst ho
+    cases c <;> simp [Cb.plain] at hc <;> simp [OOut.kind, Cb.kind]
+  | die => exact KO.none [.panic] rfl (by simp [OOut.kind])
+  | wsol dst r a' r' hw => exact KO.ofFrame (writeSolicited_frame _ _ _ _ _ hw) (by simp)
+  | rsol dst r => exact KO.ofFrame (repeatSolicited_frame _ _ _) (by simp)
+  | dbReset => exact KO.none [] (by simp) (by simp)
+  | clrDeferred => exact KO.none [] (by simp) (by simp)
+  | reqIdle f ctrl func objs raw a' ser hq hh => exact reqIdle_ko _ _ _ _ _ _ _ _ hq hh
+  | enterSol sr c => exact KO.ofFrame (enterSolWait_frame _ _ _) (by simp)
+  | setSolWait sr dl c => exact KO.none [] (by simp) (by simp)
+  | chkStart a' hc => exact KO.ofFrame (checkUnsolicited_frame_inl _ _ hc) (by simp)
+  | chkIdle a' n hc => exact KO.ofFrame (checkUnsolicited_frame_inr _ _ _ hc) (by simp)
+  | defWait n a' hd => exact KO.ofFrame (handleDeferredRead_frame_inl _ _ _ hd) (by simp)
+  | defDone n a' hd => exact KO.ofFrame (handleDeferredRead_frame_inr _ _ _ hd) (by simp)
+  | finishPass n => exact KO.ofFrame (finishPass_frame _ _) (by simp)
+  | solConf sr dl c f ctrl objs raw _ _ _ _ =>
+    refine KO.trans (b := ({ a.1 with lastBroadcast := none }, a.2 ++ [.cb (.solConfirmed sr.ecsn)])) ?_ ?_
+    · exact KO.none [.cb (.solConfirmed sr.ecsn)] rfl (by simp [OOut.kind, Cb.kind])
+    · exact KO.ofFrame (clearWrittenEvents_frame _) (by simp)
+  | fmtRead fir seq iin2 => exact KO.none [] (by simp) (by simp)
+  | unsolConf resp isNull retries dl f ctrl objs raw _ _ _ _ =>
+    refine KO.trans (b := emitCb ({ a.1 with lastBroadcast := if a.1.unsolReported then none else a.1.lastBroadcast }, a.2)
+      (.unsolConfirmed resp.ctrl.seq)) ?_ ?_
+    · exact KO.none [.cb (.unsolConfirmed resp.ctrl.seq)] rfl (by simp [OOut.kind, Cb.kind])
+    · exact KO.ofFrame (afterUnsolSeries_frame _ _ _) (by simp)
+  | uwSolConfirm resp isNull retries dl f ctrl objs raw _ _ _ =>
+    split
+    · exact KO.none [] (by simp) (by simp)
+    · exact KO.refl _ _
+  | bcast f m ctrl func objs raw a' hq h0 hb hp => exact processBroadcast_ko _ _ _ _ _ _ _ _ hq h0 hb hp
+  | uwBcastSeen resp isNull retries dl f m ctrl func objs raw _ _ _ _ _ => exact KO.none [] (by simp) (by simp)
+  | nonRead f ctrl func hs raw a' r hq _ _ _ hn =>
+    exact KO.ofFrameP (handleNonRead_frame _ _ _ _ _ _ _ _ hn) nrp_not_bcast
+  | uwDisable resp isNull retries dl f ctrl hs raw _ _ => exact KO.ofFrame (afterUnsolSeries_frame _ _ _) (by simp)
+  | deferSet f ctrl hs raw _ _ => exact KO.none [] (by simp) (by simp)
+  | uwTimeoutEnd resp isNull retries dl _ _ =>
+    refine KO.trans (b := emitCb a (.unsolTimeout resp.ctrl.seq false)) ?_ ?_
+    · exact KO.none [.cb (.unsolTimeout resp.ctrl.seq false)] rfl (by simp [OOut.kind, Cb.kind])
+    · exact KO.ofFrame (afterUnsolSeries_frame _ _ _) (by simp)
+  | uwRetry resp isNull retries retries' dl _ _ _ =>
+    exact KO.none [.cb (.unsolTimeout resp.ctrl.seq true),
+      .tx a.1.cfg.master ((writeAt a.1.unsolBuf 0 (respHeader resp)).take (max 4 resp.size))]
+      (by simp [repeatUnsolicited, emitCb, emit]) (by simp [OOut.kind, Cb.kind])
+
+theorem Reach.ko {pf : Option Frag} {a a' : Acc} (h : Reach pf a a') : KO pf a a' :=
+  Star.lift (KO.refl _) (fun _ _ _ => KO.trans) (fun _ _ => Ev.ko) h
+
+
+
+theorem settle_blocked_idle (n : Nat) (a : Acc) (h : a.1.pending = none) : settle n (.blocked a) = .blocked a := by
+  cases n with
+  | zero => rfl
+  | succ n => unfold settle; simp [h]
+
+theorem settle_panicked (n : Nat) (a : Acc) : settle n (.panicked a) = .panicked a := by
+  cases n with
+  | zero => rfl
+  | succ n => unfold settle; rfl
+
+/-- a step prologue other than a disconnect leaves the step's fragment pending -/
+theorem StepInit.pending {env : OEnv} {s : OState} {inp : OInput} {pf : Option Frag} {s0 : OState} {o0 : List OOut}
+    (h : StepInit env s inp pf s0 o0) : s0.pending = pf := by
+  cases h with
+  | rx => rfl
+  | tick => rfl
+  | txn items =>
+    have := (txnFold_frame s items).1
+    simp only [keepDb, Prod.mk.injEq] at this
+    show (txnFold s items).1.pending = s.pending
+    simp [this]
+  | add => rfl
+  | cut => rfl
+
+theorem classify_broadcast (s : OState) (f : Frag) (ctrl : AppCtrl) (func : Nat) (objs : Except Nat (List ObjHdr))
+    (m : Nat) (h0 : func ≠ 0) (hb : f.broadcast = some m) : classify s f ctrl func objs = .broadcast m := by
+  unfold classify
+  rw [if_neg h0, hb]
+
+theorem popRequest_own (s : OState) (f : Frag) (ctrl : AppCtrl) (func : Nat) (objs : Except Nat (List ObjHdr))
+    (raw : List Nat) (hp : s.pending = some f) (hq : parseRequest f.data = .request ctrl func objs raw)
+    (hm : ¬ (s.cfg.anymaster = false ∧ f.src ≠ s.cfg.master)) :
+    popRequest s = (s, .request f ctrl func objs raw) := by
+  simp only [popRequest, hp, hq]
+  rw [if_neg]
+  intro h
+  apply hm
+  refine ⟨?_, h.2⟩
+  have := h.1
+  simpa using this
+
+
+
+/-- **`broadcast_in_wait_resets_reported`** (step level, every state, every input): a step that starts in the
+    unsolicited confirm wait and processes a broadcast (a `Cb.broadcast` among its outputs) has the broadcast
+    fragment `pf` (confirm mode `m`) as its fragment, stays in the wait, records `lastBroadcast = some m`
+    and ends with `unsolReported = false` — so the confirm of the unsolicited response that is being
+    awaited, written before that broadcast, will not clear the record (`unsol_confirm_keeps_unreported`). -/
+theorem broadcast_in_wait_resets_reported (env : OEnv) (s : OState) (inp : OInput) (resp : Resp) (isNull : Bool)
+    (retries : Option Nat) (dl : Nat) (hm : s.mode = .unsolWait resp isNull retries dl)
+    (hb : ∃ o ∈ (Outstation.step env s inp).2, OOut.kind o = .bcast) :
+    ∃ pf m, StepFrag env s inp pf ∧ BcastOf pf m ∧
+      (Outstation.step env s inp).1.mode = s.mode ∧
+      (Outstation.step env s inp).1.unsolReported = false ∧
+      (Outstation.step env s inp).1.lastBroadcast = some m := by
+  rcases step_dispatch env s inp with ⟨f, _, e⟩ | e | hcut | ⟨pf, s0, o0, hinit, hnc, e⟩
+  · rw [e] at hb; simp at hb
+  · rw [e] at hb; simp at hb
+  · subst hcut
+    rcases step_reach env s .cut with ⟨f, hi, _⟩ | e | ⟨pf, s0, o0, hinit, hr⟩
+    · cases hi
+    · rw [e] at hb; simp at hb
+    · exfalso
+      obtain ⟨l, el, c⟩ := Reach.ko hr
+      have ho0 := hinit.keep.2
+      obtain ⟨o, ho, hk⟩ := hb
+      rw [show (Outstation.step env s .cut).2 = o0 ++ l from el] at ho
+      rcases List.mem_append.1 ho with h | h
+      · have := ho0 o h; rw [hk] at this; cases this
+      · obtain ⟨m, f, ctrl, func, objs, raw, hq, _, _⟩ := c ⟨o, h, hk⟩
+        cases hinit
+        cases hq.1
+  · have hpend := StepInit.pending hinit
+    have hp : PendOk pf (s0, o0) := Or.inr hpend
+    have hr : Reach pf (s0, o0) (Outstation.step env s inp) := by
+      rw [e]; exact settle_reach hp 8 _ (dispatch_reach hp _ (Star.refl _))
+    obtain ⟨l, el, c⟩ := Reach.ko hr
+    have ho0 := hinit.keep.2
+    obtain ⟨m, f, ctrl, func, objs, raw, hq, h0, hbm⟩ : ∃ m, BcastReq pf m := by
+      obtain ⟨o, ho, hk⟩ := hb
+      rw [show (Outstation.step env s inp).2 = o0 ++ l from el] at ho
+      rcases List.mem_append.1 ho with h | h
+      · have := ho0 o h; rw [hk] at this; cases this
+      · exact c ⟨o, h, hk⟩
+    have hmode : s0.mode = .unsolWait resp isNull retries dl := by
+      rcases hinit.mode with ⟨h, _, _⟩ | ⟨h, _, _⟩
+      · rw [h, hm]
+      · exact absurd h hnc
+    have hp0 : s0.pending = some f := by rw [hpend]; exact hq.1
+    refine ⟨pf, m, hinit.frag, ⟨f, hq.1, hbm⟩, ?_⟩
+    have hd : dispatch (s0, o0) = unsolWaitOnFragment (s0, o0) resp isNull := by
+      unfold dispatch
+      simp only [hmode, hp0]
+      simp
+    by_cases hfm : s0.cfg.anymaster = false ∧ f.src ≠ s0.cfg.master
+    · exfalso
+      have : Outstation.step env s inp = ({ s0 with pending := none }, o0) := by
+        rw [e, hd]; unfold unsolWaitOnFragment
+        simp only [popRequest_foreign s0 f hp0 hfm]
+        rw [settle_blocked_idle _ _ rfl]; rfl
+      rw [this] at hb
+      obtain ⟨o, ho, hk⟩ := hb
+      have := ho0 o ho; rw [hk] at this; cases this
+    · have hpop := popRequest_own s0 f ctrl func objs raw hp0 hq.2 hfm
+      have hcl := classify_broadcast (onLinkActivity { s0 with pending := none }) f ctrl func objs m h0 hbm
+      cases hpb : processBroadcast ({ onLinkActivity { s0 with pending := none } with deferred := none }, o0)
+          f m ctrl func objs raw with
+      | none =>
+        exfalso
+        have : Outstation.step env s inp =
+            ({ onLinkActivity { s0 with pending := none } with mode := .dead }, o0 ++ [.panic]) := by
+          rw [e, hd]; unfold unsolWaitOnFragment
+          simp only [hpop, hcl, hpb]
+          rw [die, settle_panicked]; rfl
+        rw [this] at hb
+        obtain ⟨o, ho, hk⟩ := hb
+        rcases List.mem_append.1 ho with h | h
+        · have := ho0 o h; rw [hk] at this; cases this
+        · simp only [List.mem_singleton] at h; subst h; cases hk
+      | some a' =>
+        obtain ⟨⟨hk, _⟩, hlb⟩ := processBroadcast_frame _ _ _ _ _ _ _ _ hpb
+        have hk' := hk
+        simp only [keepBC, Prod.mk.injEq] at hk'
+        have hpn : a'.1.pending = none := by simp [hk']; rfl
+        have : Outstation.step env s inp = ({ a'.1 with unsolReported := false }, a'.2) := by
+          rw [e, hd]; unfold unsolWaitOnFragment
+          simp only [hpop, hcl, hpb]
+          rw [settle_blocked_idle]
+          · rfl
+          · exact hpn
+        rw [this]
+        refine ⟨?_, rfl, hlb⟩
+        show a'.1.mode = s.mode
+        rw [hm, ← hmode]
+        simp [hk']; rfl
+
+/-! ### trace level: the record survives the unsolicited confirm -/
+
+/-- a step that shows none of the events that legitimately consume or replace a broadcast record: its
+    fragment is not a solicited CONFIRM and every output satisfies `Q` — `Quiet` (an accepted unsolicited
+    confirm, retransmissions and responses without IIN1.0 are allowed) or, for a confirm-mandatory record,
+    `Quiet1` (an accepted unsolicited confirm and every response short of a new unsolicited series are allowed) -/
+def QuietStep (Q : OOut → Prop) (env : OEnv) (s : OState) (inp : OInput) : Prop :=
+  (∀ pf, StepFrag env s inp pf → ¬ IsSolConfirm pf) ∧ ∀ o ∈ (Outstation.step env s inp).2, Q o
+
+/-- every step of the run is a `QuietStep` -/
+def QuietRun (Q : OOut → Prop) (env : OEnv) : OState → List OInput → Prop
+  | _, [] => True
+  | s, i :: is => QuietStep Q env s i ∧ QuietRun Q env (Outstation.step env s i).1 is
+
+/-- trace form of `unsol_confirm_keeps_unreported`: along a quiet run from a state with
+    `unsolReported = false` the record stays as it is, however many unsolicited confirms are accepted -/
+theorem unreported_record_kept_run (env : OEnv) (is : List OInput) (s : OState) (h0 : s.unsolReported = false)
+    (hq : QuietRun Quiet env s is) :
+    (Outstation.run env s is).1.unsolReported = false ∧
+    (Outstation.run env s is).1.lastBroadcast = s.lastBroadcast := by
+  induction is generalizing s with
+  | nil => exact ⟨h0, rfl⟩
+  | cons i is ih =>
+    obtain ⟨⟨hsc, hqo⟩, hrest⟩ := hq
+    obtain ⟨h1, h2⟩ := unsol_confirm_keeps_unreported env s i hsc hqo h0
+    obtain ⟨h3, h4⟩ := ih (Outstation.step env s i).1 h1 hrest
+    simp only [Outstation.run]
+    exact ⟨h3, h4.trans h2⟩
+
+/-- trace form of `unsol_confirm_keeps_mandatory`: a confirm-mandatory record with `unsolReported = false`
+    stays along a run without processed broadcast, accepted solicited confirm or new unsolicited series -/
+theorem mandatory_record_kept_run (env : OEnv) (is : List OInput) (s : OState) (h0 : s.unsolReported = false)
+    (hl : s.lastBroadcast = some 1) (hq : QuietRun Quiet1 env s is) :
+    (Outstation.run env s is).1.unsolReported = false ∧
+    (Outstation.run env s is).1.lastBroadcast = some 1 := by
+  induction is generalizing s with
+  | nil => exact ⟨h0, hl⟩
+  | cons i is ih =>
+    obtain ⟨⟨hsc, hqo⟩, hrest⟩ := hq
+    obtain ⟨h1, h2⟩ := unsol_confirm_keeps_mandatory env s i hsc hqo h0 hl
+    simp only [Outstation.run]
+    exact ih (Outstation.step env s i).1 h1 h2 hrest
+
+/-- **C13.3, trace level, D16 repaired** (`broadcast_never_dropped_by_unsol_confirm`): a broadcast processed
+    while the session waits for an unsolicited confirm (first input `i0`: the step starts in `.unsolWait …` and
+    shows a `Cb.broadcast`) leaves the record `lastBroadcast = some m` (`m` the confirm mode of that
+    fragment), and the record is still there at the end of every quiet continuation `is` of the run —
+    in particular after the unsolicited confirm of that wait has been accepted (`Cb.unsolConfirmed` is
+    `Quiet`), after retransmissions of the unsolicited response, and after responses that do not carry
+    IIN1.0.  So the next response built reports it (`broadcast_reported`, `iin_of_fresh_response`):
+    `getResponseIin` of the final state returns IIN1 with bit 0 set.
+    (Before the repair of D16 the unsolicited confirm dropped the record unreported.) -/
+theorem broadcast_never_dropped_by_unsol_confirm (env : OEnv) (s : OState) (i0 : OInput) (is : List OInput)
+    (resp : Resp) (isNull : Bool) (retries : Option Nat) (dl : Nat)
+    (hm : s.mode = .unsolWait resp isNull retries dl)
+    (hb : ∃ o ∈ (Outstation.step env s i0).2, OOut.kind o = .bcast)
+    (hq : QuietRun Quiet env (Outstation.step env s i0).1 is) :
+    ∃ pf m, StepFrag env s i0 pf ∧ BcastOf pf m ∧
+      (Outstation.run env s (i0 :: is)).1.lastBroadcast = some m ∧
+      (Outstation.run env s (i0 :: is)).1.unsolReported = false ∧
+      ∀ s' i1 i2, getResponseIin (Outstation.run env s (i0 :: is)).1 = some (s', i1, i2) → i1.testBit 0 = true := by
+  obtain ⟨pf, m, hf, hbm, _, hu, hl⟩ := broadcast_in_wait_resets_reported env s i0 resp isNull retries dl hm hb
+  obtain ⟨h1, h2⟩ := unreported_record_kept_run env is _ hu hq
+  have hfin : (Outstation.run env s (i0 :: is)).1 = (Outstation.run env (Outstation.step env s i0).1 is).1 := by
+    simp only [Outstation.run]
+  refine ⟨pf, m, hf, hbm, ?_, ?_, ?_⟩
+  · rw [hfin, h2, hl]
+  · rw [hfin, h1]
+  · intro s' i1 i2 hg
+    rw [(broadcast_reported _ _ _ _ hg).1, hfin, h2, hl]; rfl
+
+/-- … and for a confirm-mandatory broadcast (destination 0xFFFE, mode 1) processed during the unsolicited
+    wait the continuation may also transmit responses that report the record (they carry IIN1.0 and CON,
+    `broadcast_forces_con`, and do not clear it): the record `some 1` is still there after the unsolicited
+    confirm, as long as no solicited confirm is accepted, no new broadcast processed and no new unsolicited
+    series started (`Quiet1`) -/
+theorem mandatory_broadcast_never_dropped_by_unsol_confirm (env : OEnv) (s : OState) (i0 : OInput)
+    (is : List OInput) (resp : Resp) (isNull : Bool) (retries : Option Nat) (dl : Nat)
+    (hm : s.mode = .unsolWait resp isNull retries dl)
+    (hb : ∃ o ∈ (Outstation.step env s i0).2, OOut.kind o = .bcast)
+    (h1 : (Outstation.step env s i0).1.lastBroadcast = some 1)
+    (hq : QuietRun Quiet1 env (Outstation.step env s i0).1 is) :
+    ∃ pf, StepFrag env s i0 pf ∧ BcastOf pf 1 ∧
+      (Outstation.run env s (i0 :: is)).1.lastBroadcast = some 1 ∧
+      (Outstation.run env s (i0 :: is)).1.unsolReported = false ∧
+      ∀ s' i1 i2, getResponseIin (Outstation.run env s (i0 :: is)).1 = some (s', i1, i2) → i1.testBit 0 = true := by
+  obtain ⟨pf, m, hf, hbm, _, hu, hl⟩ := broadcast_in_wait_resets_reported env s i0 resp isNull retries dl hm hb
+  have hm1 : m = 1 := by rw [hl] at h1; cases h1; rfl
+  subst hm1
+  obtain ⟨k1, k2⟩ := mandatory_record_kept_run env is _ hu h1 hq
+  have hfin : (Outstation.run env s (i0 :: is)).1 = (Outstation.run env (Outstation.step env s i0).1 is).1 := by
+    simp only [Outstation.run]
+  refine ⟨pf, hf, hbm, ?_, ?_, ?_⟩
+  · rw [hfin, k2]
+  · rw [hfin, k1]
+  · intro s' i1 i2 hg
+    rw [(broadcast_reported _ _ _ _ hg).1, hfin, k2]; rfl
+
+/-- `Quiet` as a Boolean test -/
+def quietB : OOut → Bool
+  | .cb (.broadcast ..) => false
+  | .cb (.solConfirmed _) => false
+  | .tx _ bytes => !(bytes.getD 2 0).testBit 0
+  | _ => true
+
+theorem quiet_iff (o : OOut) : Quiet o ↔ quietB o = true := by
+  cases o with
+  | cb c => cases c <;> simp [Quiet, quietB, OOut.kind, Cb.kind, ReportsBroadcast]
+  | tx d b => simp [Quiet, quietB, OOut.kind, ReportsBroadcast]
+  | txLink _ _ _ => simp [Quiet, quietB, OOut.kind, ReportsBroadcast]
+  | line _ => simp [Quiet, quietB, OOut.kind, ReportsBroadcast]
+  | panic => simp [Quiet, quietB, OOut.kind, ReportsBroadcast]
+
+instance (o : OOut) : Decidable (Quiet o) := decidable_of_iff _ (quiet_iff o).symm
+
+/-- `Quiet1` as a Boolean test -/
+def quiet1B : OOut → Bool
+  | .cb (.broadcast ..) => false
+  | .cb (.solConfirmed _) => false
+  | .cb (.unsolWait _) => false
+  | _ => true
+
+theorem quiet1_iff (o : OOut) : Quiet1 o ↔ quiet1B o = true := by
+  cases o with
+  | cb c => cases c <;> simp [Quiet1, quiet1B, OOut.kind, Cb.kind]
+  | tx d b => simp [Quiet1, quiet1B, OOut.kind]
+  | txLink _ _ _ => simp [Quiet1, quiet1B, OOut.kind]
+  | line _ => simp [Quiet1, quiet1B, OOut.kind]
+  | panic => simp [Quiet1, quiet1B, OOut.kind]
+
+instance (o : OOut) : Decidable (Quiet1 o) := decidable_of_iff _ (quiet1_iff o).symm
+
+/-- a received fragment that parses as anything but a solicited CONFIRM makes the first half of `QuietStep` true -/
+theorem quietStep_rx (Q : OOut → Prop) (env : OEnv) (s : OState) (src dst : Nat) (data : List Nat) (ctrl : AppCtrl)
+    (func : Nat) (objs : Except Nat (List ObjHdr)) (raw : List Nat)
+    (hp : parseRequest data = .request ctrl func objs raw) (hn : func ≠ 0 ∨ ctrl.uns = true)
+    (hq : ∀ o ∈ (Outstation.step env s (.rx src dst data)).2, Q o) : QuietStep Q env s (.rx src dst data) := by
+  refine ⟨?_, hq⟩
+  rintro pf hf ⟨f, ctrl', objs', raw', e, hp', hu⟩
+  rcases hf with hf | ⟨b, _, hf⟩
+  · rw [hf] at e; cases e
+  · rw [hf] at e; cases e
+    rw [hp] at hp'
+    cases hp'
+    rcases hn with hn | hn
+    · exact hn rfl
+    · rw [hn] at hu; cases hu
+
+example : Quiet (.cb (.unsolConfirmed 3)) := by decide
+example : Quiet1 (.cb (.unsolConfirmed 3)) ∧ Quiet1 (.tx 1 [0xE0, 0x81, 0x81, 0]) ∧ ¬ Quiet1 (.cb (.unsolWait 1)) := by decide
+example : Quiet (.tx 1 [0xF0, 0x82, 0x80, 0]) := by decide
+example : ¬ Quiet (.tx 1 [0xC0, 0x81, 0x81, 0]) := by decide
 
 /-! ## examples: the hypotheses of the theorems above are satisfiable by concrete, non-trivial states
 (the database stays a parameter: only its answer to `unwrittenClasses` is assumed) -/
@@ -967,5 +1886,93 @@ example (env : OEnv) (h : env.outstation ≠ 0xFFFE) : rxBroadcast env 0xFFFE = 
   rfl
 
 example : BcastOf (some ⟨0, 1, some 1, [0xC0, 2]⟩) 1 := ⟨_, rfl, rfl⟩
+
+/-- `unsolReported_sound`: a state waiting for the confirm of an unsolicited response that carried IIN1.0
+    (IIN1 = 0x81), with the flag set, satisfies `ReportedOk` … -/
+example (db : Db) : ReportedOk { exState db with
+    mode := .unsolWait ⟨⟨true, true, true, true, 0⟩, 0x82, 0x81, 0, 0⟩ false none 5000, unsolReported := true } := by
+  intro r n t d m _
+  cases m
+  decide
+
+/-- … and with IIN1 = 0x80 it does not -/
+example (db : Db) : ¬ ReportedOk { exState db with
+    mode := .unsolWait ⟨⟨true, true, true, true, 0⟩, 0x82, 0x80, 0, 0⟩ false none 5000, unsolReported := true } := by
+  intro h
+  have := h _ _ _ _ rfl rfl
+  revert this; decide
+
+-- BEGIN EVAL (concrete evaluation of the model, including the current `Db` component)
+/-! ## D16 repaired, on a concrete trace
+
+This section EVALUATES the model (including the current `Db` component).  An outstation with unsolicited
+responses enabled starts by sending its null unsolicited response (IIN1 = 0x80, sequence number 0) and waits
+for the confirm.  Then: a broadcast RECORD CURRENT TIME on 0xFFFF (confirm mode 0); the unsolicited
+confirm; a DELAY MEASURE request. -/
+
+def d16Start : OState := (Outstation.start { unsolicited := true } 10).1
+def d16Bcast : OInput := .rx 1 0xFFFF [0xC1, 24]
+def d16Confirm : OInput := .rx 1 1024 [0xD0, 0]
+def d16Inputs : List OInput := [d16Bcast, d16Confirm, .rx 1 1024 [0xC0, 23]]
+
+/-- the broadcast is processed in the wait, the unsolicited confirm is accepted and KEEPS the record
+    (`some 0`, before the repair of D16: `none`), and the next response carries IIN1 = 0x81 -/
+theorem unsol_confirm_keeps_broadcast_example :
+    (Outstation.run {} d16Start d16Inputs).2.map cbs = [[.broadcast 24 .processed], [.unsolConfirmed 0], []] ∧
+    (Outstation.run {} d16Start d16Inputs).2.map txFrags = [[], [], [(1, [192, 129, 129, 0, 52, 2, 7, 1, 0, 0])]] ∧
+    (Outstation.run {} d16Start [d16Bcast]).1.lastBroadcast = some 0 ∧
+    (Outstation.run {} d16Start [d16Bcast]).1.unsolReported = false ∧
+    (Outstation.run {} d16Start [d16Bcast, d16Confirm]).1.lastBroadcast = some 0 ∧
+    (Outstation.run {} d16Start d16Inputs).1.lastBroadcast = none := by
+  decide +kernel
+
+def isUnsolWait : Mode → Bool
+  | .unsolWait .. => true
+  | _ => false
+
+theorem isUnsolWait_elim (m : Mode) (h : isUnsolWait m = true) : ∃ r n t d, m = .unsolWait r n t d := by
+  cases m <;> simp [isUnsolWait] at h
+  exact ⟨_, _, _, _, rfl⟩
+
+/-- the hypotheses of `broadcast_in_wait_resets_reported`, `unsol_confirm_keeps_unreported` and
+    `broadcast_never_dropped_by_unsol_confirm` hold on this trace: the first step starts in the unsolicited
+    wait and shows a `Cb.broadcast`; the step that accepts the unsolicited confirm is a `QuietStep` -/
+theorem d16_hypotheses :
+    (∃ resp isNull retries dl, d16Start.mode = .unsolWait resp isNull retries dl) ∧
+    (∃ o ∈ (Outstation.step {} d16Start d16Bcast).2, OOut.kind o = .bcast) ∧
+    (Outstation.step {} d16Start d16Bcast).1.unsolReported = false ∧
+    QuietRun Quiet {} (Outstation.step {} d16Start d16Bcast).1 [d16Confirm] ∧
+    Cb.unsolConfirmed 0 ∈ cbs (Outstation.step {} (Outstation.step {} d16Start d16Bcast).1 d16Confirm).2 := by
+  refine ⟨isUnsolWait_elim _ (by decide +kernel), by decide +kernel, by decide +kernel, ⟨?_, trivial⟩, by decide +kernel⟩
+  exact quietStep_rx _ _ _ _ _ _ ⟨true, true, false, true, 0⟩ 0 (.ok []) [] (by rfl) (Or.inr rfl) (by decide +kernel)
+
+/-- the same with a confirm-mandatory broadcast (0xFFFE) and a DELAY MEASURE request answered during the wait:
+    that response and the one after the unsolicited confirm both carry IIN1 = 0x81 and CON (0xE0 / 0xE1), the
+    record `some 1` survives the unsolicited confirm, and only the solicited confirm of a response that
+    reported it clears it -/
+def d16Inputs1 : List OInput :=
+  [.rx 1 0xFFFE [0xC1, 24], .rx 1 1024 [0xC0, 23], d16Confirm, .rx 1 1024 [0xC1, 23], .rx 1 1024 [0xC1, 0]]
+
+theorem unsol_confirm_keeps_mandatory_example :
+    (Outstation.run {} d16Start d16Inputs1).2.map (fun l => (cbs l).filter (fun c => !Cb.isApp c)) =
+      [[.broadcast 24 .processed], [], [.unsolConfirmed 0], [.solWait 1],
+       [.solConfirmed 1, .beginConfirm, .endConfirm 0 0 0]] ∧
+    (Outstation.run {} d16Start d16Inputs1).2.map txFrags =
+      [[], [(1, [224, 129, 129, 0, 52, 2, 7, 1, 0, 0])], [], [(1, [225, 129, 129, 0, 52, 2, 7, 1, 0, 0])], []] ∧
+    (List.range 6).map (fun n => (Outstation.run {} d16Start (d16Inputs1.take n)).1.lastBroadcast) =
+      [none, some 1, some 1, some 1, some 1, none] := by
+  decide +kernel
+
+/-- the hypotheses of `unsol_confirm_keeps_mandatory` / `mandatory_broadcast_never_dropped_by_unsol_confirm`
+    hold on it: both steps after the broadcast are `QuietStep Quiet1` -/
+theorem d16_hypotheses_mandatory :
+    (∃ o ∈ (Outstation.step {} d16Start (.rx 1 0xFFFE [0xC1, 24])).2, OOut.kind o = .bcast) ∧
+    (Outstation.step {} d16Start (.rx 1 0xFFFE [0xC1, 24])).1.lastBroadcast = some 1 ∧
+    QuietRun Quiet1 {} (Outstation.step {} d16Start (.rx 1 0xFFFE [0xC1, 24])).1 [.rx 1 1024 [0xC0, 23], d16Confirm] := by
+  refine ⟨by decide +kernel, by decide +kernel, ?_, ?_, trivial⟩
+  · exact quietStep_rx _ _ _ _ _ _ ⟨true, true, false, false, 0⟩ 23 (.ok []) [] (by rfl) (Or.inl (by decide))
+      (by decide +kernel)
+  · exact quietStep_rx _ _ _ _ _ _ ⟨true, true, false, true, 0⟩ 0 (.ok []) [] (by rfl) (Or.inr rfl) (by decide +kernel)
+-- END EVAL
 
 end Dnp3.Proofs.C13
